@@ -2,7 +2,7 @@
    Statements only; proofs in Proofs/LimitProofs.v.  Models: Model/Limit.v (run validators over the regenerated
    Gen_limit tables).  `closed` is the networkx representation invariant "edge endpoints are nodes". *)
 From stdpp Require Import strings gmap sets.
-From CG Require Import Model.Limit Proofs.LimitProofs Proofs.LimitLint.
+From CG Require Import Model.Limit Proofs.LimitProofs Proofs.LimitLint Proofs.LimitTotal.
 Open Scope string_scope.
 
 (* obligation on the tables regenerated from tx.py: for every multi-input type t, gatemap t is the non-inverting
@@ -63,6 +63,18 @@ Theorem C05_limit_fanout_lint_clean : ∀ C k steps C', closed (c_g C) → lint_
 Proof. intros C k steps C'. exact (limit_fanout_lint _ C k steps C' C05_tables_ok). Qed.
 Print Assumptions C05_limit_fanout_lint_clean.
 
+(* termination / non-rejection: for EVERY well-formed circuit (networkx invariant, lint-clean, names that `add` accepts,
+   no edge out of a bb_input -- `connect` never makes one) and every k >= 2 the validators accept SOME step list, i.e.
+   the while loops can always be run to completion; so the theorems above are not vacuous for any such input *)
+Theorem C05_limit_fanin_total : ∀ C k, 2 ≤ k → closed (c_g C) → lint_clean C → good_names (c_g C) → no_bbin_driver (c_g C) →
+  ∃ steps C', limit_fanin_run C k steps = Ok C'.
+Proof. intros C k Hk H1 H2 H3 H4. apply (limit_fanin_total _ C k C05_tables_ok Hk). by split_and!. Qed.
+Print Assumptions C05_limit_fanin_total.
+Theorem C05_limit_fanout_total : ∀ C k, 2 ≤ k → closed (c_g C) → lint_clean C → good_names (c_g C) → no_bbin_driver (c_g C) →
+  ∃ steps C', limit_fanout_run C k steps = Ok C'.
+Proof. intros C k Hk H1 H2 H3 H4. apply (limit_fanout_total _ C k C05_tables_ok Hk). by split_and!. Qed.
+Print Assumptions C05_limit_fanout_total.
+
 (* the oracle's verdict is a statement about `consistent`: a passed check implies the equivalence of the theorems above *)
 Theorem C05_oracle_sound : ∀ c c', equiv_check c c' = true → equiv_on (dom c) c c'.
 Proof. exact equiv_check_sound. Qed.
@@ -87,3 +99,8 @@ Proof. split; [apply closedb_spec; vm_compute; reflexivity|]. apply ok_with_spec
 Example C05_regs_run : bb_free ex_out ∧
   ∃ C', insert_registers ex_out 1 ["a"; "x"; "y"; "z"] = Ok C' ∧ bool_decide (dom (c_bbs C') = {[ "ff_x"; "ff_y" ]}) = true.
 Proof. split; [reflexivity|]. apply ok_with_spec. vm_compute. reflexivity. Qed.
+Example C05_total_hyps : closed (c_g ex_in) ∧ lint_clean ex_in ∧ good_names (c_g ex_in) ∧ no_bbin_driver (c_g ex_in).
+Proof.
+  split_and!; [apply closedb_spec; vm_compute; reflexivity|vm_compute; reflexivity
+              |apply good_namesb_spec; vm_compute; reflexivity|apply no_bbin_driverb_spec; vm_compute; reflexivity].
+Qed.
